@@ -43,8 +43,9 @@ def game_files(paths):
 def ref_gen(ctx, op):
     """What the same invocation writes in a never-used process with an empty disk."""
     if op["op"] == "gen_manual":
-        key = ("gen_manual", canon(op["board"]))
-        return ctx.ref.call("gen_manual", {"board": op["board"]}, key=key)
+        plain = {k: v for k, v in op["board"].items() if k != "container"}    # the reference gets plain lists
+        key = ("gen_manual", canon(plain))
+        return ctx.ref.call("gen_manual", {"board": plain}, key=key)
     key = ("gen_cli", canon(op["params"]))
     return ctx.ref.call("gen_cli", {"params": op["params"]}, key=key)
 
